@@ -128,3 +128,38 @@ void h_borders(void)
     VERIF_CANARY;
 }
 #endif
+
+/* ------------------------------------------------------------ scan-line Close event: a separation for every neighbour */
+#if defined(JOB_close_event)
+/* When a node closes, the scan line must emit one separation constraint towards its neighbour above (l -> v) and one
+ * towards its neighbour below (v -> r), and link the two neighbours to each other.  "Any placement satisfying the generated
+ * constraints has no overlapping pair" rests on no neighbouring pair being skipped here (the gap itself is covered by the
+ * separation_* jobs, which slice the same `double sep = ...` lines). */
+struct PACKED vecp { void **d; size_t n; size_t cap; };
+struct PACKED Con { void *left, *right; double gap, lm; long timeStamp; _Bool active; _Bool equality; _Bool unsatisfiable; _Bool needsScaling; void *creator; };
+void w_close_event(void *v, void *cs);
+void h_close_event(void)
+{
+    struct Rect rv, rl, rr; struct NodeM v, l, r; char varv, varl, varr; void *slots[4]; struct vecp cs; _Bool hasl, hasr; void *a0, *b0;
+    v.r = &rv; l.r = &rl; r.r = &rr; v.v = &varv; l.v = &varl; r.v = &varr;
+    v.firstAbove = hasl ? &l : (void *)0; v.firstBelow = hasr ? &r : (void *)0;
+    l.firstBelow = &v; r.firstAbove = &v; l.firstAbove = a0; r.firstBelow = b0;
+    size_t n0; __CPROVER_assume(n0 <= 2);
+    cs.d = slots; cs.n = n0; cs.cap = 4;
+    w_close_event(&v, &cs);
+    __CPROVER_assert(cs.n == n0 + (hasl ? 1 : 0) + (hasr ? 1 : 0), "SPEC scan-line close: exactly one separation constraint per existing neighbour (above, below)");
+    size_t k = n0;
+    if (hasl) {
+        struct Con *c = (struct Con *)slots[k];
+        __CPROVER_assert(c->left == (void *)&varl && c->right == (void *)&varv && !c->equality, "SPEC scan-line close: the neighbour above is constrained to stay before the closing node");
+        __CPROVER_assert(l.firstBelow == v.firstBelow, "SPEC scan-line close: the neighbour above is re-linked to the closing node's lower neighbour");
+        k++;
+    }
+    if (hasr) {
+        struct Con *c = (struct Con *)slots[k];
+        __CPROVER_assert(c->left == (void *)&varv && c->right == (void *)&varr && !c->equality, "SPEC scan-line close: the closing node is constrained to stay before the neighbour below");
+        __CPROVER_assert(r.firstAbove == v.firstAbove, "SPEC scan-line close: the neighbour below is re-linked to the closing node's upper neighbour");
+    }
+    VERIF_CANARY;
+}
+#endif
